@@ -192,6 +192,9 @@ func c11NewEnv() *c11Env {
 				return
 			}
 
+			// response headers a remote authorizer may hand on to the upstream service
+			w.Header().Set("X-Up", "u1:"+string(body))
+			w.Header().Set("X-Up2", "u2:"+string(body))
 			json.NewEncoder(w).Encode(map[string]any{"e": e})
 		default:
 			if deny[string(body)] {
@@ -814,6 +817,8 @@ type c11Outcome struct {
 	Aud    []string `json:"aud,omitempty"`
 	Active bool     `json:"active"`
 	Detail string   `json:"detail,omitempty"`
+	// headers handed on to the upstream service (remote authorizer), sorted by name
+	Up []c11KV `json:"up,omitempty"`
 }
 
 type c11StepObs struct {
@@ -972,6 +977,12 @@ func (env *c11Env) exec(kind, id string, ex c11Executor, q c11Req, cch cache.Cac
 	if m, ok := ctx.Outputs()[id].(map[string]any); ok {
 		o.Sent = env.sentOf(m["e"])
 	}
+
+	for name, vals := range ctx.UpstreamHeaders() {
+		o.Up = append(o.Up, c11KV{K: name, V: strings.Join(vals, ",")})
+	}
+
+	sort.Slice(o.Up, func(i, j int) bool { return o.Up[i].K < o.Up[j].K })
 
 	return o, 0
 }
@@ -1472,7 +1483,7 @@ func (env *c11Env) coq(c c11Case, o c11Obs, effs []c11Conf, tab *c11Sha) string 
 		// the generator only produces configurations the real factory accepts; a rejection is rendered as a
 		// case whose observation no model run produces
 		return "(cs (wld [] []) [] [stp (ins KGen \"rejected\" (epc [] \"\" [] ANone) [] [] [] None [] None [] []) " +
-			"(rq [] [] [] \"\" \"\" \"\") [] [] (ob (Some \"config rejected\") false 0 OErr OErr 0)] None)"
+			"(rq [] [] [] \"\" \"\" \"\") [] [] (ob (Some \"config rejected\") false 0 OErr OErr 0 [] [])] None)"
 	}
 
 	b := &c11Binder{base: env.srv.URL, names: map[string]string{}}
@@ -1507,7 +1518,8 @@ func (env *c11Env) coq(c c11Case, o c11Obs, effs []c11Conf, tab *c11Sha) string 
 			key = "(Some " + vf.CoqStr(so.Key) + ")"
 		}
 
-		ob := vf.CoqApp("ob", key, vf.CoqBool(so.Hit), vf.CoqNat(so.Calls), b.outcome(so.Out), b.outcome(so.Fresh), vf.CoqNat(so.FCalls))
+		ob := vf.CoqApp("ob", key, vf.CoqBool(so.Hit), vf.CoqNat(so.Calls), b.outcome(so.Out), b.outcome(so.Fresh), vf.CoqNat(so.FCalls),
+			vf.CoqListOf(so.Out.Up, c11CoqKV), vf.CoqListOf(so.Fresh.Up, c11CoqKV))
 		steps = append(steps, vf.CoqApp("stp", b.inst(effs[st.Inst]), b.req(st.Req), vf.CoqStrs(so.HO), vf.CoqStrs(so.VO), ob))
 	}
 
@@ -1615,8 +1627,8 @@ func (env *c11Env) genProto(r *vf.Rand, kind string) c11Conf {
 		}
 	}
 
-	if kind == "remote" && r.Chance(20) {
-		p.Up = []string{"X-Up"}
+	if kind == "remote" && r.Chance(45) {
+		p.Up = vf.Pick(r, [][]string{{"X-Up"}, {"X-Up", "X-Up2"}, {"X-Up2", "X-Nope"}})
 	}
 
 	if templated {
@@ -1750,7 +1762,7 @@ func (env *c11Env) genSibling(r *vf.Rand, p c11Conf) (c11Conf, string) {
 	q.Ep.Headers = append([]c11KT(nil), p.Ep.Headers...)
 	q.ID = p.ID + "b"
 
-	if p.Kind == "gen" && r.Chance(30) {
+	if p.Kind == "gen" && r.Chance(40) {
 		// ... nor whether the session lifespan is asserted
 		q.Session = !p.Session
 
@@ -2048,6 +2060,17 @@ func (env *c11Env) gen(r *vf.Rand) c11Case {
 	}
 
 	base := c11GenReq(r)
+	carol := 30
+	if strings.Contains(strings.Join(notes, " "), "gen-session") {
+		carol = 75
+	}
+
+	if kind == "gen" && r.Chance(carol) {
+		// a session the remote system reports as not active: only instances asserting the
+		// session lifespan refuse it
+		base.Cred = "x.carol.r"
+	}
+
 	c.Steps = []c11Step{{Inst: 0, Req: base, Rel: "first"}}
 
 	for len(c.Steps) < n {
@@ -2073,14 +2096,14 @@ func (env *c11Env) gen(r *vf.Rand) c11Case {
 	}
 
 	// every instance of a mixed history is used, and used again
-	if len(c.Protos) > 1 {
+	if len(c.Insts) > 1 {
 		used := map[int]int{}
 		for _, st := range c.Steps {
 			used[st.Inst]++
 		}
 
 		for i := range c.Insts {
-			for used[i] < 2 && c.Insts[i].Proto > 0 {
+			for used[i] < 2 && i > 0 {
 				q := base
 				if used[i] == 1 && r.Chance(50) {
 					q, _ = c11Vary(r, base, kindOf(i))
@@ -2201,6 +2224,10 @@ func (env *c11Env) corpus() []c11Case {
 		{Protos: []c11Conf{intro}, Insts: []c11InstSpec{{Proto: 0}, {Proto: 0, Over: &c11Over{Scopes: []string{"admin"}}}}, Tok: tok, Deny: []string{}, Rep: -1,
 			Steps: []c11Step{{Inst: 0, Req: req("alice"), Rel: "first"}, {Inst: 1, Req: req("alice"), Rel: "other-instance"},
 				{Inst: 1, Req: req("alice"), Rel: "same"}, {Inst: 1, Req: req("alice"), Rel: "same"}}},
+		// C11-F2, audience: a rule-level audience assertion has to be applied on a hit as well (the token is for "api")
+		{Protos: []c11Conf{intro}, Insts: []c11InstSpec{{Proto: 0}, {Proto: 0, Over: &c11Over{Aud: []string{"web"}}}}, Tok: tok, Deny: []string{}, Rep: -1,
+			Steps: []c11Step{{Inst: 0, Req: req("alice"), Rel: "first"}, {Inst: 1, Req: req("alice"), Rel: "other-instance"},
+				{Inst: 0, Req: req("alice"), Rel: "other-instance"}}},
 		// C11-F3: rule-level expressions are not evaluated on a hit
 		{Protos: []c11Conf{plain}, Insts: []c11InstSpec{{Proto: 0}, {Proto: 0, Over: &c11Over{Exprs: []c11Expr{{K: "false"}}}}}, Tok: tok, Deny: []string{}, Rep: -1,
 			Steps: []c11Step{{Inst: 0, Req: req("alice"), Rel: "first"}, {Inst: 1, Req: req("alice"), Rel: "other-instance"}}},
